@@ -180,6 +180,19 @@ fn main() {
                     }
                 }
             }
+            if long {
+                // final sweep: every key that was ever inserted is probed once, so a single lost key is seen
+                let mut seen: Vec<Tuple> = vec![];
+                for k in keys.clone() {
+                    if seen.contains(&k) {
+                        continue;
+                    }
+                    seen.push(k.clone());
+                    let got: Vec<Tuple> = idx.get_with_bloom(&k).cloned().unwrap_or_default();
+                    ops.push(format!("(C36HGet {} {})", coq_tuple(&k), coq_tuples(&got)));
+                }
+                desc.push(format!("final sweep over {} keys", seen.len()));
+            }
             // hash table for every key the model may need
             let mut table = vec![];
             for k in &keys {
